@@ -15,6 +15,15 @@ pub use metadata::*;
 pub use predicate::{PredicateLayout, PredicateVer, PredicateWrapper};
 pub use statement::{StatementVer, StatementWrapper};
 
+/// Re-exports of otherwise private items, only for out-of-tree verification.
+#[cfg(feature = "verif-hooks")]
+pub mod verif_reexports {
+    pub use super::envelope::{DSSEParser, DSSEVersion, EnvelopeFile};
+    pub use super::predicate::slsa_provenance_v01::TimeStamp;
+    pub use super::predicate::{LinkV02, SLSAProvenanceV01, SLSAProvenanceV02};
+    pub use super::statement::{FromMerge, StateLayout, StateNaive, StateV01};
+}
+
 #[cfg(test)]
 mod test {
     use once_cell::sync::Lazy;
